@@ -738,6 +738,7 @@ func lockSpecs(specs []kernel.Spec) []kernel.Spec {
 		kernel.Spec{Prop: "C07lock", Mk: New(Mode{Prop: "C07", Lock: true, Submits: true, Reads: true, BadReqs: true, Boundary: true, Foreign: true, ReadWeights: []int{1, 0, 0, 8, 3, 0}, Oracle: oracleC07}), Limits: limLock},
 		kernel.Spec{Prop: "C14lock", Mk: New(Mode{Prop: "C14", Lock: true, External: true, Submits: true, Reads: true, ReadWeights: []int{1, 0, 0, 8, 4, 0}, Oracle: oracleC14, Final: finalC14}), Limits: limLock},
 		kernel.Spec{Prop: "C01lock", Mk: New(Mode{Prop: "C01", Lock: true, Submits: true, LostReply: true, Oracle: oracleC01}), Limits: limLock},
+		kernel.Spec{Prop: "C15lock", Mk: NewCfgLock(), Limits: limLock},
 		kernel.Spec{Prop: "C08lock", Mk: New(Mode{Prop: "C08", Lock: true, Faults: true, BadReqs: true, Reads: true, Submits: true, Oracle: oracleC08}), Limits: limLock},
 	)
 }
